@@ -208,9 +208,11 @@ struct Lossy {
         pl.assign(part.end() - (long)((size_t)n * dch), part.end());
         used_fec = true; run.api_ok++; run.count(nx.lbrr == 1 ? "fec_with_lbrr" : "fec_without_lbrr");
         if (extra) run.count("fec_larger_frame_size");
+        if (extra && pol.slack % 4) run.count("fec_larger_frame_size_not_multiple_of_10ms");
       } else {
         conceal(Ld, n, pol.piece ? pol.piece * u : 0, pl, "L");
         if (pol.piece) run.count("plc_in_pieces");
+        if (pol.piece == 3 || pol.piece >= 5) run.count("plc_in_pieces_of_7_5_12_5_15_17_5_ms");
       }
       if (run.verbose) printf("lost k=%zu toc=%02x mode=%d n=%d fec=%d next_toc=%02x next_lbrr=%d next_len=%zu peakL=%.4f peakP=%.4f peakR=%.4f recent=%.4f in_rms=%.4f\n", k, rc.pkt[0], rc.mode, n, (int)used_fec, next_ok ? log[k + 1].pkt[0] : 0, next_ok ? log[k + 1].lbrr : -1, next_ok ? log[k + 1].pkt.size() : 0, peak(pl), peak(pp), peak(pr), recent_peak, rc.in_rms);
       // a frame_size that is not a multiple of 2.5 ms must be refused (and must not consume the concealment)
@@ -359,7 +361,12 @@ struct Lossy {
       else if (op.k == "SRC") S.op_src(op);
       else if (op.k == "ENC") op_enc(op);
       else if (op.k == "NET") op_net(op);
-      else if (op.k == "RXPOL") { Pol q; q.fec = (int)op.arg(0) != 0; static const int pc[] = {0, 1, 2, 4, 8}; q.piece = pc[(size_t)(((op.arg(1) % 5) + 5) % 5)]; q.slack = (int)(((op.arg(2) % 5) + 5) % 5) * 4; pol_changes.push_back({log.size(), q}); }
+      else if (op.k == "RXPOL") { Pol q; q.fec = (int)op.arg(0) != 0; static const int pc[] = {0, 1, 2, 4, 8};
+        // (arguments 0..4 keep their first meaning - pieces of 0 / 2.5 / 5 / 10 / 20 ms, slack in steps of 10 ms - so that older plans replay unchanged;
+        //  5 and above select every multiple of 2.5 ms: pieces of 2.5 .. 20 ms, slack of 2.5 .. 40 ms)
+        int64_t a1 = op.arg(1), a2 = op.arg(2);
+        q.piece = a1 >= 5 ? (int)((a1 - 5) % 8) + 1 : pc[(size_t)(((a1 % 5) + 5) % 5)];
+        q.slack = a2 >= 5 ? (int)((a2 - 5) % 16) + 1 : (int)(((a2 % 5) + 5) % 5) * 4; pol_changes.push_back({log.size(), q}); }
     }
     if (win_at < 0 || !have_rx) { playout(); return; }
     // window enumeration: the sender's packet log is fixed; every loss pattern over the k packets of the window (all 2^k of them, the
@@ -407,7 +414,7 @@ Plan gen(uint64_t seed, int tier) {
   if (flavour == 4) {
     // window enumeration: a short stream (lead-in, window, clean tail), no other loss; all 2^k patterns over the window are played out
     gen_enc_setup(r, p, r.chance(0.6));
-    p.ops.push_back(mkop("RXPOL", {r.range(0, 1), r.range(0, 4), r.chance(0.3) ? r.range(1, 4) : 0}));
+    p.ops.push_back(mkop("RXPOL", {r.range(0, 1), r.range(0, 12), r.chance(0.3) ? r.range(1, 20) : 0}));
     p.ops.push_back(mkop("SRC", {r.weighted({1, 0, 4, 2, 6, 3, 1, 1, 2, 0, 0, 0, 4, 1, 1, 2}), r.pick({60, 110, 220, 440, 1000, 3000}), r.pick({30, 100, 300, 500, 900}), r.range(1, 1000), r.pick({0, 300, 600, 2000})}));
     int fidx = r.weighted({0, 1, 3, 8, 3, 3, 0, 0, 0});
     int d48 = kFrames48[fidx];
@@ -435,7 +442,7 @@ Plan gen(uint64_t seed, int tier) {
     if (r.chance(0.7)) p.ops.push_back(mkop("CTL", {OPUS_SET_MAX_BANDWIDTH_REQUEST, r.pick({1101, 1102, 1103})}));
     p.ops.push_back(mkop("CTL", {OPUS_SET_BITRATE_REQUEST, r.pick({12000, 20000, 32000, 40000})}));
     if (r.chance(0.5)) { p.ops.push_back(mkop("CTL", {OPUS_SET_INBAND_FEC_REQUEST, 1})); p.ops.push_back(mkop("CTL", {OPUS_SET_PACKET_LOSS_PERC_REQUEST, r.pick({10, 30})})); }
-    p.ops.push_back(mkop("RXPOL", {r.range(0, 1), r.range(0, 4), 0}));
+    p.ops.push_back(mkop("RXPOL", {r.range(0, 1), r.range(0, 12), 0}));
     int nseg = (int)r.range(3, tier ? 12 : 6);
     for (int sgm = 0; sgm < nseg; sgm++) {
       p.ops.push_back(mkop("SRC", {r.pick({(int)SRC_NOISE, (int)SRC_NOISE, (int)SRC_VOICED, (int)SRC_MUSIC, (int)SRC_TONES}), r.pick({110, 220, 1000}), r.pick({10, 30, 100, 300, 900}), r.range(1, 1000), r.pick({0, 300, 2000})}));
@@ -476,7 +483,7 @@ Plan gen(uint64_t seed, int tier) {
   if (flavour == 2) {
     // decay probe: >= 1 s quiet lead-in, loud voiced / tonal burst, then >= 1.2 s of uninterrupted loss
     gen_enc_setup(r, p, r.chance(0.3));
-    p.ops.push_back(mkop("RXPOL", {0, r.range(0, 4), 0}));
+    p.ops.push_back(mkop("RXPOL", {0, r.range(0, 12), 0}));
     int fidx = r.weighted({0, 1, 3, 8, 3, 2, 0, 0, 0});
     int d = kFrames48[fidx] / 48; if (d < 1) d = 1;
     p.ops.push_back(mkop("SRC", {SRC_SILENCE, 0, 0, 1, 0}));
@@ -490,7 +497,7 @@ Plan gen(uint64_t seed, int tier) {
     return p;
   }
   gen_enc_setup(r, p, r.chance(0.5));
-  p.ops.push_back(mkop("RXPOL", {r.range(0, 1), r.range(0, 4), r.chance(0.3) ? r.range(1, 4) : 0}));
+  p.ops.push_back(mkop("RXPOL", {r.range(0, 1), r.range(0, 12), r.chance(0.3) ? r.range(1, 20) : 0}));
   auto push_src = [&]() { p.ops.push_back(mkop("SRC", {r.weighted({1, 0, 4, 2, 6, 3, 1, 1, 2, 0, 0, 0, 4, 1, 1, 2}), r.pick({60, 110, 220, 440, 1000, 3000}), r.pick({30, 100, 300, 500, 900}), r.range(1, 1000), r.pick({0, 300, 600, 2000})})); };
   push_src();
   int fidx = r.weighted({1, 1, 4, 8, 3, 3, 1, 1, 1});
@@ -504,7 +511,7 @@ Plan gen(uint64_t seed, int tier) {
     if (r.chance(0.05)) fidx = r.weighted({1, 1, 4, 8, 3, 3, 1, 1, 1});
     if (r.chance(0.03)) p.ops.push_back(mkop("CTL", {11002, r.pick({1000, 1001, 1002, -1000})}));
     if (r.chance(0.02)) p.ops.push_back(mkop("CTL", {OPUS_SET_BITRATE_REQUEST, r.pick({8000, 16000, 24000, 48000, 96000})}));
-    if (r.chance(0.02)) p.ops.push_back(mkop("RXPOL", {r.range(0, 1), r.range(0, 4), r.chance(0.3) ? r.range(1, 4) : 0}));
+    if (r.chance(0.02)) p.ops.push_back(mkop("RXPOL", {r.range(0, 1), r.range(0, 12), r.chance(0.3) ? r.range(1, 20) : 0}));
     p.ops.push_back(mkop("ENC", {fidx, r.pick({1500, 1500, 1276, 400, 100}), r.range(0, 2)}));
     bool lose = false;
     if (t < quiet_after) {
